@@ -31,8 +31,8 @@ CHECKS = {
 }
 
 CHECKS.update({
- "C09": e1("bounded-exhaustive enumeration of integer sequences, reservation/write orders, string multisets and Uint64Map layouts x ID sequences against plain slices/maps",
-  "Every uint64/int sequence of length 0-4 over boundary alphabets through the delta/zigzag codecs, every fixed width, every Reserve x WriteItem order of ByteArraysBuilder for <=4 items, every string multiset, and every Uint64Map layout (bucket bits 1..6/8 x tag bits 0..3) x every ID sequence of length <=4 over boundary IDs with duplicates: FindFirst, FindFirstWithTag, FillTagged, Begin and EachItem(1) against a map oracle.",
+ "C09": e1("bounded-exhaustive enumeration of integer sequences, reservation/write orders, string multisets and Uint64Map layouts x ID sequences against plain slices/maps + stateless model checking (controlled scheduler) of 2-3 concurrent writer goroutines on one ByteArraysBuilder / Uint64MapBuilder",
+  "Every uint64/int sequence of length 0-4 over boundary alphabets through the delta/zigzag codecs, every fixed width, every Reserve x WriteItem order of ByteArraysBuilder for <=4 items, every string multiset, and every Uint64Map layout (bucket bits 1..6/8 x tag bits 0..3) x every ID sequence of length <=4 over boundary IDs with duplicates: FindFirst, FindFirstWithTag, FillTagged, Begin and EachItem(1) against a map oracle. Concurrent writers: every partition of 2-4 WriteItem calls on 1-2 items / IDs over 2-3 goroutines, every interleaving at the lock operations, every item reads back as exactly the payloads written to it.",
   "64-bit domains are covered by boundary alphabets (2^k, 2^k+-1, all-ones prefixes), not all 2^64 values; EachItem only with succeeding callbacks (errors are C28)."),
  "C10": e1("exhaustive enumeration at reduced width + full-width boundary alphabets of every bit packing named in the statement; encode/decode round trip on the real functions",
   "Zigzag, type-and-namespace, value-type/geometry-length, bucket headers for every layout the real block-builder constructor produces (counts 1..2^16/2^20), tile IDs (all tiles z<=9/13), lat/lng point IDs, GB postcodes and ONS codes are round-tripped exhaustively over reduced widths and windows around every 2^k, plus products of ~385-value boundary alphabets at full width.",
